@@ -19,7 +19,7 @@ EXPLANATION = (
     'environment switch (gate).  The table over real mount layouts is not decided.')
 ASSUMPTIONS = ['what ismount/realpath return at run time is outside the decided part',
                'hidden --force-volume testing option is ignored']
-MINIMUM = {'R07.1': 5, 'R07.2': 3, 'R07.3': 1, 'R07.4': 1, 'R07.5': 1, 'R07.6': 2}
+MINIMUM = {'R07.1': 5, 'R07.2': 1, 'R07.3': 1, 'R07.4': 1, 'R07.5': 1, 'R07.6': 2}
 EXPECTED = {
     'home': ('AbsolutePaths', 'NoCheck', 'SameVolume'),
     '$topdir/.Trash/$uid': ('RelativePaths', 'TopTrashDirCheck', 'SameVolume'),
@@ -106,6 +106,19 @@ def check(ctx):
                mode is not None and is_const(strip(mode), 0o700), node=e,
                message='a trash directory is created with mode %s (readable by others)'
                        % (short(mode) if mode is not None else 'default 0o777'))
+    leafs = {}
+    for e in r.mkdirs:
+        for parts in join_part_lists(e.data['roles']['path']):
+            last = strip(parts[-1])
+            tail = last.value if isinstance(last, Const) and last.value in ('files', 'info') \
+                else 'trash dir'
+            base = parts[:-1] if tail != 'trash dir' else parts
+            leafs.setdefault(tail, []).append(e)
+    for need in ('trash dir', 'files', 'info'):
+        ctx.ob('R07.2', 'the %s is created explicitly (as the leaf of a mkdir with mode 0o700)'
+               % need, need in leafs, construct='trash dir creation', text=need,
+               message='the %s is only created implicitly as a parent by os.makedirs, which '
+                       'applies the mode to the leaf only: it gets 0777 & ~umask' % need)
     for e in r.muts:
         if e.data['kind'] in ('CHMOD', 'CHOWN'):
             ctx.ob('R07.2', 'no chmod/chown after creation', False, node=e,
